@@ -31,6 +31,11 @@ RULE = ("(1) stamps: random histories of record_run_started/record_run_stopped(o
         "hashing, validate_dynamic_job; 35 % of the cases are built around an amended static input that is "
         "withdrawn), 8 % of the runs cancel one hash computation (real cancel event); compared with "
         "FreshSkip.xcheck_trace incl. job kind, skipped, has_hash and the ingredient lists of explained hashes. "
+        "(1b) refreshed: real FileHash.refreshed + compute_inp_hashes on a real file after 0-4 random file-system operations "
+        "(write in place, rename, rename with preserved mtime/size/mode, chmod with preserved mtime, same bytes in a new "
+        "inode, touch, delete, create, same-size forgery, touch back) with the record taken at a random moment versus "
+        "FreshStat.refreshed_case; non-trivial when an operation follows the record. External writes of the consumer cases "
+        "use the same kinds; 36 directed replacement histories (kind x phase x static/built) and 20 real serve() builds. "
         "(3) oracle on the implementation alone, from the driver's own event-order log and from digests "
         "recomputed with hash.StepHash over files hashed afresh by the driver.")
 TRUSTED_BASE = [
@@ -41,11 +46,16 @@ TRUSTED_BASE = [
     "the composition order in model/Fresh.v (do_try/do_amend/do_end) and model/FreshSkip.v (do_xtry/do_xchk/do_xend), validated by correspondence (2)",
     "translator tables for try_skip_job (two reviewed shapes), validate_dynamic_job, _reset_step_to_pending, the tail of _derive_job, job.py; literal skeletons of _run_work_thread, _compute_out_step_hash, hash.py ingredient words",
     "C13 (equal digests have equal ingredient lists): the model compares ingredient lists where the code compares SHA-256 digests",
+    "translator/gen_fresh_stat.py (AST of FileHash / FileHash.refreshed, literal loops of compute_inp/out/both_hashes, statement "
+    "lookups in executor.py); harness abstraction of a real file (digest code, st_mode, mtime code, st_size, st_ino)",
 ]
 ASSUMPTIONS = [
     "no_aba: no writer restores the exact earlier content, size and mode of an input inside one command window "
     "(end-point hashing cannot observe it); the generator never produces such a write",
-    "FileHash.refreshed reports a changed file (C13; mtime/inode short-cut not defeated)",
+    "no_stat_forgery (explicit hypothesis `honest` of C03_refreshed_exact): bytes written in place get an mtime other than "
+    "the recorded one, nobody sets the recorded mtime back on the recorded inode after a change, the recorded inode number is "
+    "not given to another file that is moved to the path (ext4 reuses freed numbers at once: two successive replacements with "
+    "preserved mtime/size/mode can defeat the shortcut; the harness does not produce that); refreshed is atomic",
     "build_completed is only called while no command runs (its documented precondition)",
     "a post-hoc amended static file that is confirmed for the first time during the command cannot be checked "
     "for the part of the window before its confirmation",
